@@ -155,12 +155,16 @@ CHECKS = {
        "Model-free METAMORPHIC ORACLE on the engine for everything else: each generated query (comparisons with constants of another numeric type / on the left, "
        "double bounds, OR of ranges, IN, LIKE, IS NULL, NOT/AND/OR, ORDER BY 1..3 cols asc/desc, LIMIT/OFFSET, DISTINCT, GROUP BY + COUNT/SUM/MIN/MAX/AVG, HAVING, "
        "inner/left joins, IN/EXISTS/FROM subqueries, BEFORE TX) is run as is, under every USE INDEX ON hint, on a twin table without secondary indexes kept in the same "
-       "transactions, inside the writing tx / after COMMIT / after reopen, with a 2-row sort buffer; ORDER BY sortedness (unhinted plan and every hint), partition, COUNT(*), group totals, no group twice, LIMIT slices and LIMIT order keys.",
+       "transactions, inside the writing tx / after COMMIT / after reopen, with a 2-row sort buffer; ORDER BY sortedness (unhinted plan and every hint), partition, COUNT(*), group totals, no group twice, LIMIT slices and LIMIT order keys. "
+       "JOIN family (c11join.go, ORACLE ONLY, no Lean model of joins): 2-3 tables with the same column names and indexes on each side (index-free twins), INNER/LEFT/self joins whose ON clause has 0-2 equi conjuncts plus "
+       "inner-only / outer-only / MIXED outer-inner / constant conjuncts, the same conjuncts placed in ON vs WHERE, join order permuted, ORDER BY / GROUP BY / LIMIT over columns of either side, each query against a Go reference "
+       "evaluator (nested loops over the PK scans), the twins, random forced indexes on every table and a 2-row sort buffer; the strategy of every join level (hash table vs one inner query per outer row) and the sort / streaming-group "
+       "steps are observed by reflection (counters join.path.*).",
   note=TB + " Modelled rather than verified: only the fragment is in Lean (no joins, grouping, DISTINCT, subqueries, LIKE, mixed-type constants, file sort, history, "
        "GROUP BY planning); the `inclusive` flags of typedValueSemiRange are modelled for the planner only (the scan never reads them); which of several equal rows a sort step "
        "emits first is not modelled (lists compared for total orders / index order only); the reader chain is observed through reflection on unexported fields (read-only); values are the C15 "
        "representations; NaN and -0.0 are excluded from the theorems (C15 findings). The metamorphic oracle takes the engine's own semantics as given (two-valued "
-       "comparisons, LIMIT 0 = no limit) and checks agreement between plans only. 26 known signatures (root causes R1, R10a/b, R11, R12a/b/c, R13 in known_findings.json).",
+       "comparisons, LIMIT 0 = no limit) and checks agreement between plans only. Joins are checked by the oracles only: no theorem is claimed for them. 42 known signatures (root causes R1, R10a/b, R11, R12a/b/c, R13 and, from the join family, R25 hash-join freezes a mixed ON conjunct, R26 index coverage ignores the table qualifier, R27 NOT IN negation lost in join conditions, R28 spilled sort panics on a repeated aggregate; known_findings.json).",
   technique="Lean 4 proof (lexicographic key-window lemmas on top of C15 key_order/composite_lex, list induction) + metamorphic differential testing of the real engine + correspondence on the fragment",
   design="7/C11"),
  "C14": dict(
